@@ -21,6 +21,7 @@ type mapHist struct {
 	n     int
 	val   float64
 	c     *core.Ctx
+	walkDefined bool
 }
 
 func (h *mapHist) nextVal() gen.Expr { h.val++; return nl(h.val) }
@@ -64,11 +65,38 @@ func (h *mapHist) rangeOp(name string, inner int) gen.Stmt {
 	h.n++
 	kv := fmt.Sprintf("k%d", h.n)
 	body := []gen.Stmt{printCall(sl("visit"), vr(kv, tStr))}
-	if inner >= 7 { // no loop variable: one round per key that is still present when its turn comes
+	if inner >= 7 && inner <= 9 { // no loop variable: one round per key that is still present when its turn comes
 		kv = ""
 		body = []gen.Stmt{printCall(sl("round"))}
 	}
 	switch inner {
+	case 10: // a second map loop inside: the outer iteration is not disturbed by it
+		h.n++
+		k2 := fmt.Sprintf("k%d", h.n)
+		keys := []string{"p", "q", "r", "s", "t"}[:2+h.r.Intn(4)]
+		vals := make([]gen.Expr, len(keys))
+		for i := range keys {
+			vals[i] = nl(float64(i))
+		}
+		body = append(body, gen.For{Var: k2, VarT: tStr, Over: gen.MapLit{T: tMapN, Keys: keys, Vals: vals}, Body: []gen.Stmt{printCall(sl("inner"), vr(kv, tStr), vr(k2, tStr))}})
+	case 11: // the same map ranged inside its own loop, after a deletion
+		h.n++
+		k2 := fmt.Sprintf("k%d", h.n)
+		body = append(body, h.del(name, []string{"c", "a", "b"}[h.r.Intn(3)]),
+			gen.For{Var: k2, VarT: tStr, Over: h.m(name), Body: []gen.Stmt{printCall(sl("inner"), vr(kv, tStr), vr(k2, tStr))}})
+	case 12: // a map loop inside a function called from the loop body (another map and the same one)
+		if !h.walkDefined {
+			h.walkDefined = true
+			h.stmts = append(h.stmts, gen.FuncDef{Name: "walk", Ret: gen.TNone, Params: []gen.Param{{Name: "mm", T: tMapN}, {Name: "depth", T: tNum}}, Body: []gen.Stmt{
+				gen.For{Var: "wk", VarT: tStr, Over: vr("mm", tMapN), Body: []gen.Stmt{
+					printCall(sl("walk"), vr("depth", tNum), vr("wk", tStr)),
+					gen.If{Conds: []gen.Expr{gen.Binary{Op: ">", L: vr("depth", tNum), R: nl(0), T: tBool}}, Blocks: [][]gen.Stmt{{
+						gen.CallStmt{C: call("walk", gen.TNone, gen.MapLit{T: tMapN, Keys: []string{"u", "v", "w"}, Vals: []gen.Expr{nl(1), nl(2), nl(3)}}, gen.Binary{Op: "-", L: vr("depth", tNum), R: nl(1), T: tNum})},
+					}}},
+				}},
+			}})
+		}
+		body = append(body, gen.CallStmt{C: call("walk", gen.TNone, h.m(name), nl(float64(h.r.Intn(2))))})
 	case 7: // delete a later key
 		body = append(body, h.del(name, "c"))
 	case 8: // drain the map in the first round
@@ -93,7 +121,7 @@ func (h *mapHist) rangeOp(name string, inner int) gen.Stmt {
 	return gen.For{Var: kv, VarT: tStr, Over: h.m(name), Body: body}
 }
 
-const c12NOps = 12
+const c12NOps = 13
 
 // op returns the statements of exhaustive-alphabet operation number o on map name.
 func (h *mapHist) op(name string, o int) []gen.Stmt {
@@ -116,6 +144,9 @@ func (h *mapHist) op(name string, o int) []gen.Stmt {
 	case o == 9:
 		h.c.Cover("op", "range-reinsert")
 		return []gen.Stmt{h.rangeOp(name, 5)}
+	case o == 11:
+		h.c.Cover("op", "range-nested")
+		return []gen.Stmt{h.rangeOp(name, 10+h.r.Intn(3))}
 	case o == 10:
 		h.c.Cover("op", "range-novar-del-later")
 		return []gen.Stmt{h.rangeOp(name, 7+h.r.Intn(2))}
@@ -138,7 +169,7 @@ func init() {
 	core.Register(&core.Check{
 		ID:    "C12",
 		Level: "exploration",
-		Rule: "map histories as Evy programs whose printed observations (map, len, has of every key, visited keys, lookups) are compared with an insertion-ordered dictionary model: all histories up to length 3 (quick) / 4 (thorough) over a 12-operation alphabet on 3 keys (set, delete, five kinds of mutation while ranging over the same map with and without loop variable, guarded lookup), plus random histories up to length 14 with non-identifier keys, aliases (second name, map inside an array, map inside any), missing-key lookups and ==/!= between maps built in different orders with deep values; distinct = distinct canonical program texts",
+		Rule: "map histories as Evy programs whose printed observations (map, len, has of every key, visited keys, lookups) are compared with an insertion-ordered dictionary model: all histories up to length 3 (quick) / 4 (thorough) over a 13-operation alphabet on 3 keys (set, delete, five kinds of mutation while ranging over the same map with and without loop variable, nested map loops — another map, the same map, through a recursive function —, guarded lookup), plus random histories up to length 14 with non-identifier keys, aliases (second name, map inside an array, map inside any), missing-key lookups and ==/!= between maps built in different orders with deep values; distinct = distinct canonical program texts",
 		Assumptions: []string{"sequential model: ref.Map (ordered keys + dictionary) in harness/ref; the history is a single program so the order of operations is total"},
 		NumCases: func(tier string) int {
 			if tier == "thorough" {
@@ -225,7 +256,7 @@ func c12Run(c *core.Ctx, i int) {
 			h.stmts = append(h.stmts, h.get(name, key, true))
 			c.Cover("op", "get-guarded")
 		case 6, 7:
-			inner := r.Intn(10)
+			inner := r.Intn(13)
 			h.stmts = append(h.stmts, h.rangeOp(name, inner))
 			c.Cover("op", fmt.Sprintf("range-inner-%d", inner))
 		case 8:
